@@ -26,6 +26,13 @@ func IndexTable(db objects.Store, tblSum []byte, tbl *objects.Table, logger logr
 	)
 	logger = logger.WithName("IndexTable")
 	logger.Info("indexing table", "sum", tblSum)
+	// the table and its blocks may come from a remote: key positions and rows
+	// are used as positions into each other below and by the profiler
+	for _, k := range tbl.PK {
+		if int(k) >= len(tbl.Columns) {
+			return fmt.Errorf("primary key position %d is beyond the table's %d columns", k, len(tbl.Columns))
+		}
+	}
 	for i, sum := range tbl.Blocks {
 		blk, bb, err = objects.GetBlock(db, bb, sum)
 		if err != nil {
@@ -33,6 +40,11 @@ func IndexTable(db objects.Store, tblSum []byte, tbl *objects.Table, logger logr
 		}
 		if len(blk) == 0 {
 			return fmt.Errorf("block %x has no rows", sum)
+		}
+		for j, row := range blk {
+			if len(row) < len(tbl.Columns) {
+				return fmt.Errorf("block %x: row %d has %d cells, table has %d columns", sum, j, len(row), len(tbl.Columns))
+			}
 		}
 		if len(tbl.PK) > 0 {
 			tblIdx[i] = slice.IndicesToValues(blk[0], tbl.PK)
